@@ -5,7 +5,7 @@ EXTENDS Integers, Sequences, Json, IOUtils, TLC
 Traces == ndJsonDeserialize(IOEnv.TRACE_FILE)
 VARIABLES uses, reg, out, tid, l
 vars == <<uses, reg, out, tid, l>>
-NDev == 8
+NDev == 16
 UsesOf(t) == [d \in 1..NDev |-> IF d <= Len(Traces[t].uses) THEN {Traces[t].uses[d][k] : k \in 1..Len(Traces[t].uses[d])} ELSE {}]
 D == INSTANCE DevReg WITH Dev <- 1..NDev, GA <- 1..8, DefaultUses <- <<>>
 Ev == Traces[tid].ev[l]
